@@ -9,12 +9,16 @@ import Lcapy.Model.MNA
 namespace Lcapy.MNA
 variable {K : Type} [Add K] [Mul K] [Neg K] [Sub K] [Div K] [OfNat K 0] [OfNat K 1] [OfNat K 2]
 
+/-- apply `f` to the initial currents recorded in a coupling list -/
+def coupMap (f : K → K) (coup : List (Nat × K × Option K)) : List (Nat × K × Option K) :=
+  coup.map (fun p => (p.1, p.2.1, p.2.2.map f))
+
 /-- apply `f` to every independent quantity of a component -/
 def Cpt.mapSrc (f : K → K) : Cpt K → Cpt K
   | .V n1 n2 m v => .V n1 n2 m (f v)
   | .I n1 n2 i => .I n1 n2 (f i)
   | .Cap n1 n2 c v0 => .Cap n1 n2 c (v0.map f)
-  | .Ind n1 n2 m l i0 coup => .Ind n1 n2 m l (i0.map f) coup
+  | .Ind n1 n2 m l i0 coup => .Ind n1 n2 m l (i0.map f) (coupMap f coup)
   | c => c
 
 /-- value-wise sum of two components of the same shape (the second is ignored where shapes differ) -/
@@ -25,11 +29,14 @@ def optAdd (a b : Option K) : Option K :=
   | none, some y => some y
   | none, none => none
 
+def coupAdd (c c' : List (Nat × K × Option K)) : List (Nat × K × Option K) :=
+  List.zipWith (fun p q => (p.1, p.2.1, optAdd p.2.2 q.2.2)) c c'
+
 def Cpt.addSrc : Cpt K → Cpt K → Cpt K
   | .V n1 n2 m v, .V _ _ _ v' => .V n1 n2 m (v + v')
   | .I n1 n2 i, .I _ _ i' => .I n1 n2 (i + i')
   | .Cap n1 n2 c v0, .Cap _ _ _ v0' => .Cap n1 n2 c (optAdd v0 v0')
-  | .Ind n1 n2 m l i0 coup, .Ind _ _ _ _ i0' _ => .Ind n1 n2 m l (optAdd i0 i0') coup
+  | .Ind n1 n2 m l i0 coup, .Ind _ _ _ _ i0' coup' => .Ind n1 n2 m l (optAdd i0 i0') (coupAdd coup coup')
   | c, _ => c
 
 /-- two components differ at most in their independent quantities -/
